@@ -635,17 +635,20 @@ Section TimeMachine.
   Variable ignore_fmt : bool.    (* c08_time_cache_ignores_fmt *)
 
   Definition tobj : Type := (Z * Z * arr)%type.       (* scale, fmt, jd *)
-  Definition tworld : Type := (list (Z * tobj) * list (tkey * (Z * arr)))%type.
+  Definition tworld : Type := (list (Z * tobj) * list (option tkey * (Z * arr)))%type.
+  (* entries of a flood have the key None, which never compares equal *)
+  Definition tokey_eqb (a b : option tkey) : bool :=
+    match a, b with Some x, Some y => tkey_eqb ignore_fmt x y | _, _ => false end.
 
   Inductive top : Type :=
   | TNew (s : Z) (scale fmt : Z) (jd : arr)
   | TScale (s : Z) (scale : Z)
   | TFlood (n : nat).
 
-  Fixpoint tflood (n : nat) (l : list (tkey * (Z * arr))) : list (tkey * (Z * arr)) :=
+  Fixpoint tflood (n : nat) (l : list (option tkey * (Z * arr))) : list (option tkey * (Z * arr)) :=
     match n with
     | O => l
-    | S m => tflood m (lru_insert cap ((-1, -1, -1, nothing) : tkey) ((0, nothing) : Z * arr) l)
+    | S m => tflood m (lru_insert cap (None : option tkey) ((0, nothing) : Z * arr) l)
     end.
 
   (* observation: (16 * format of the result + its scale, jd of the result) *)
@@ -658,12 +661,12 @@ Section TimeMachine.
         | Some (sc, fmt, jd) =>
             (* to_scale(own scale) returns self, and that call is memoised like any other *)
             let k := (sc, scale, fmt, jd) in
-            match lru_lookup (tkey_eqb ignore_fmt) k (snd w) with
+            match lru_lookup tokey_eqb (Some k) (snd w) with
             | Some (v, l') => ((fst w, l'), Some (fst v * 16 + scale, snd v))
             | None =>
                 match (if sc =? scale then Some jd else tf sc scale jd) with
                 | None => (w, None)
-                | Some r => ((fst w, lru_insert cap k (fmt, r) (snd w)), Some (fmt * 16 + scale, r))
+                | Some r => ((fst w, lru_insert cap (Some k) (fmt, r) (snd w)), Some (fmt * 16 + scale, r))
                 end
             end
         end
@@ -890,3 +893,15 @@ Definition check_pv (c : pvtable * list pvop * list (arr * Z)) : Z :=
   else if go false true then 3
   else if go true true then 4
   else 1.
+
+(* the cache-free PosVel machine: the specification with every memo (and the result register) wiped before each
+   operation *)
+Definition pv_strip1 (o : pvobj) : pvobj := let '(k, a, l, _) := o in (k, a, l, []).
+Definition pv_strip (w : list (Z * pvobj)) : list (Z * pvobj) := pv_map (fun _ o => pv_strip1 o) w.
+Definition pv_wipe (wr : pvworld) : pvworld := (pv_strip (fst wr), None).
+
+Fixpoint pvrun_uncached (pvf : Z -> list arr -> option arr) (w : pvworld) (ops : list pvop) : list (option (arr * Z)) :=
+  match ops with
+  | [] => []
+  | o :: r => let (w1, x) := pvstep pvf false false (pv_wipe w) o in x :: pvrun_uncached pvf w1 r
+  end.
